@@ -340,7 +340,8 @@ Section Frames.
         | (c1, FPanic) => (c1, FPanic)
         end
     end.
-  Definition frames_fuel (c : conn) : nat := S (N.to_nat (lenN (c_in c) / NormalHeaderSize)).
+  (* every delivered frame consumes at least its 5-byte header, so |c| + 1 steps suffice *)
+  Definition frames_fuel (c : conn) : nat := S (N.to_nat (lenN (c_in c))).
   Definition read_next_frame (k : N) (c : conn) : conn * fres (bytes * N) :=
     read_next_loop (frames_fuel c) k c [].
 
